@@ -67,6 +67,14 @@ fn forms(full: bool) -> Vec<(String, Query)> {
             sel(vec![Item::Expr(k(), None), Item::Expr(v(), None), Item::Expr(E::Grouping(Box::new(k())), Some("gk".into())), Item::Expr(E::Grouping(Box::new(v())), Some("gv".into())), Item::Expr(cnt.clone(), Some("n".into())), Item::Expr(sm.clone(), Some("s".into()))], gb, None, false),
         ));
     }
+    // HAVING on grouping columns above several grouping sets (the rolled-up rows carry NULL there)
+    for (n, mk) in [("rollup", (|x: Vec<E>| GroupBy::Rollup(x)) as fn(Vec<E>) -> GroupBy), ("cube", (|x: Vec<E>| GroupBy::Cube(x)) as fn(Vec<E>) -> GroupBy)] {
+        let items = || vec![Item::Expr(k(), None), Item::Expr(v(), None), Item::Expr(cnt.clone(), Some("n".into())), Item::Expr(sm.clone(), Some("s".into()))];
+        out.push((format!("{n}:having-k"), sel(items(), mk(vec![k(), v()]), Some(bin(Op::Eq, k(), E::Int(1))), false)));
+        out.push((format!("{n}:having-v"), sel(items(), mk(vec![k(), v()]), Some(bin(Op::Eq, v(), E::Int(1))), false)));
+        out.push((format!("{n}:having-v-null"), sel(items(), mk(vec![k(), v()]), Some(E::IsNull(Box::new(v()), false)), false)));
+        out.push((format!("{n}:having-k-or-n"), sel(items(), mk(vec![k(), v()]), Some(bin(Op::Or, bin(Op::Eq, k(), E::Int(2)), bin(Op::Gt, cnt.clone(), E::Int(1)))), false)));
+    }
     out.push(("rollup:k".into(), sel(vec![Item::Expr(k(), None), Item::Expr(E::Grouping(Box::new(k())), Some("gk".into())), Item::Expr(cnt.clone(), Some("n".into()))], GroupBy::Rollup(vec![k()]), None, false)));
     if full {
         out.push(("rollup:shared-expr".into(), sel(vec![Item::Expr(ke.clone(), Some("ke".into())), Item::Expr(v(), None), Item::Expr(cnt.clone(), Some("n".into()))], GroupBy::Rollup(vec![ke.clone(), v()]), None, false)));
